@@ -315,7 +315,10 @@ package allocation
 //@ func (*Manager).GetReservation
 //@   requires forall i :: 0 <= i && i < len(m.reservations) ==> m.reservations[i] != nil
 //@   pure
+//@   ensures [C19:reservation-by-token] res1 ==> exists i :: 0 <= i && i < len(m.reservations) && m.reservations[i].token == reservationToken && m.reservations[i].port == res0
+//@   ensures [C19:reservation-by-token] !res1 ==> forall i :: 0 <= i && i < len(m.reservations) ==> m.reservations[i].token != reservationToken
 //@   loop 0 invariant -1 <= rangeindex && rangeindex < len(m.reservations) && (forall i :: 0 <= i && i < len(m.reservations) ==> m.reservations[i] != nil)
+//@   loop 0 invariant forall i :: 0 <= i && i <= rangeindex ==> m.reservations[i].token != reservationToken
 //@   loop 0 decreases len(m.reservations) - rangeindex
 
 //@ func (*Manager).GetRandomEvenPort
